@@ -78,10 +78,10 @@ CLAIMED.update({
         technique="Coq soundness proof w.r.t. a concrete address semantics + bit-exact correspondence + independent symbolic alias oracle",
         ref="DESIGN.md C06"),
     "C14": dict(
-        text="PARTIAL. Proved in Coq: (1) the model's dependency scan is prefix-determined -- what it reports about the first m following instructions is independent of what follows, so the edges of the doubled kernel are a window of the periodic instruction stream's edges; (2) for ANY periodic edge relation on stream positions, the cross-iteration paths seen through the unrotated window and through every rotated window correspond one to one with the same member instructions (positions modulo the period) and the same edge weights; (3) (Props/C05.v) the reported set is the de-duplicated image of all such paths. The glue between (1)-(3) for lcd_entries (line numbers, offset, de-duplication order) is not proved; the property is decided by an exhaustive metamorphic oracle on the implementation: every rotation offset of generated kernels (register, memory and write-back dependencies) and of shipped kernels on shipped models must report the same cycles (as instruction texts) with the same latencies, plus the bit-exact LCD correspondence.",
-        note="Trusted: Coq kernel. Not proved: the composition of the three theorems for the concrete lcd_entries; reflexivity of the alias relation (C12) is needed by it.",
-        technique="Coq proofs (prefix-determination of the scan by induction; window bijection for periodic edge relations) + exhaustive-rotation metamorphic testing (partial)",
-        ref="DESIGN.md C14"),
+        text="Proved in Coq for the model of the LCD analysis, for every kernel, rotation offset, numeric instance, alias test and option: the dependency scan is prefix-determined; with canonical line numbers the dependency graph of the doubled rotated kernel is the window [r, r+2n) of the periodic instruction stream's edge relation; hence the cross-iteration paths enumerated for the rotated and the unrotated kernel correspond one to one visiting the same instructions in the same order with the same edge weights, the entries before de-duplication have equal latency sums and the same members, every reported (de-duplicated) entry has a counterpart for the same cycle, and over exact rationals the reported sums and the LCD figure are equal. The model is tied to the code by the bit-exact LCD correspondence, and the property is additionally checked directly on the implementation by an exhaustive metamorphic oracle (every rotation offset of generated kernels with register, memory and write-back dependencies, and of shipped kernels on shipped models).",
+        note="Trusted: Coq kernel. Residue: under binary64 the kept representative of a cycle may add the same weights in a different order after rotation (the theorem gives equality of the multiset of weights; the oracle compares sums with 1e-9); order of reported entries is not claimed.",
+        technique="Coq proofs (prefix-determination of the scan, window lemma for create_dg, bijection of cross-iteration paths, de-duplication) + bit-exact LCD correspondence + exhaustive-rotation metamorphic testing",
+        ref="DESIGN.md C14, notes/C14.md"),
     "C16": dict(
         text="The partition arithmetic of check_for_loopcarried_dep is re-translated from the Python source on every run; Coq proves that the chunks cover the kernel exactly once for every kernel length and worker count (incl. more workers than lines), that the post-processing (de-dup, sort, dictionary) is invariant under every permutation of the delivered path list, hence parallel = sequential for any interleaving. Tied to the code by replaying the path lists real worker processes delivered (worker counts 1..length+3, perturbed completion orders through a guarded hook) and by byte-identical repeated CLI runs.",
         note="Trusted: Coq kernel; translator of the four arithmetic lines (cross-checked by exec of the same lines); OS scheduling, Manager().list() proxies and fork/pickle are sampled, not modelled; '-'.join key injectivity assumed.",
